@@ -361,6 +361,10 @@ def execute(ctx, cases, model_ok, res, stop_after=6):
             res.count("event:" + ev[0] + (":" + str(ev[2]) if ev[0] == "end" else (":" + ev[3] if ev[0] == "raise" else "")))
         for sig, what in oracle(case, o):
             res.violations.append({"signature": sig, "what": what, "case": case})
+        if o.get("stalled"):
+            res.count("harness:stalled_run")
+            for lbl in o.get("stall_where", [])[:3]:
+                res.count("harness:stall:" + lbl.split("@")[0])
         if o.get("error"):
             continue
         if not o["valid"]:
